@@ -462,7 +462,8 @@ Msgs(s, T) ==
          IF Cardinality(s.baskets) >= MaxBaskets THEN {} ELSE
          {[type |-> T, curator |-> a, name |-> nm, ct |-> "C", classes |-> cs, dar |-> dr,
            crit |-> cr, fee |-> f]
-            : a \in Users, nm \in {"NCT", "BCT"}, cs \in Seqs1(ClassIds(s)), dr \in BOOLEAN,
+            \* (a third name only where three baskets may exist: more baskets than batches, seeded change C09-i)
+            : a \in Users, nm \in (IF MaxBaskets >= 3 THEN {"NCT", "BCT", "XCT"} ELSE {"NCT", "BCT"}), cs \in Seqs1(ClassIds(s)), dr \in BOOLEAN,
               cr \in Crits, f \in OfferedFees}
     [] T = "Put" ->
          {[type |-> T, owner |-> a, basket_denom |-> k, credits |-> cs]
